@@ -187,8 +187,14 @@ func runC01(r *core.Run) {
 			return core.Outcome{Class: fmt.Sprint("records=", len(c.Recs)), Nontrivial: len(c.Recs) > 0, Evals: 2*len(c.Recs) + 1}
 		})
 
-	core.Clause(r, "all-bytes", core.Opts{Rule: "every byte value except CR, LF in the name and (except '>') in the sequence: alone, first, in the middle, last; as single record and as second of two records; non-trivial = all"},
+	core.Clause(r, "all-bytes", core.Opts{Rule: "every byte value except CR, LF in the name and (except '>') in the sequence: alone, first, in the middle, last; as single record and as second of two records; plus multi-byte UTF-8 names/sequences (incl. U+2028, U+0085, BOM) and format vocabulary (';', '>' in names); non-trivial = all"},
 		func(emit func(c01List) bool) {
+			for _, v := range []string{"é", "\xc5\x81", "日本", "\xe2\x80\xa8", "\xc2\x85", "\xef\xbb\xbfx", "a\xc2\xa0b", ";comment", "a;b", ">x"} {
+				emit(c01List{[]faRec{{core.S(v), "ACGT"}}})
+				if !strings.Contains(v, ">") {
+					emit(c01List{[]faRec{{"first", "AC"}, {"n", core.S(v)}, {"last", core.S(v + v)}}})
+				}
+			}
 			for b := 0; b < 256; b++ {
 				if b == '\r' || b == '\n' {
 					continue
